@@ -12,14 +12,14 @@ TOLERANCE = "rel 1e-5 on both sides of the bound; usage <= 1 + 1e-6"
 RULE = (
     "Hypothesis-generated (small spec, tolerance setting) pairs; specs: one Einsum (matmul/matvec, rank bounds from "
     "{4,6,8,12}, 2-3 memory levels) or two (2-matmul chain / 2 elementwise ops, bounds <= 6, 2 levels), finite throughputs, "
-    "leak, every memory below Main finite and smaller than the tensors together; metrics ENERGY / LATENCY / EDP. The "
-    "tolerance run's tile-shape prune threshold (literal 1000) is drawn from {1000, 1000, 8, 1} (DESIGN 4.6). Settings: "
+    "leak, every memory below Main finite and smaller than the tensors together; metrics ENERGY / LATENCY / EDP / ENERGY|LATENCY (half of the cases: two-objective fronts are where rounding drops rows). The "
+    "tolerance run's tile-shape prune threshold (literal 1000) is drawn from {1000, 8, 1} (DESIGN 4.6). Settings: "
     "objective_tolerance t in {0.01, 0.1, 0.5} alone, resource_usage_tolerance r in {0.01, 0.1, 0.5} alone, and both "
     "together. The spec is mapped exactly (both 0) and with the setting. Oracle: (t alone) the tolerance run is feasible "
-    "when the exact run is and opt0*(1-1e-5) <= best_t <= opt0*(1+t)*(1+1e-5); (any r > 0) every returned mapping is valid: "
+    "when the exact run is and opt0*(1-1e-5) <= best_t <= opt0*(1+t)*(1+1e-5) for every optimised objective (both front minima for ENERGY|LATENCY); (any r > 0) every returned mapping is valid: "
     "the detailed evaluation does not raise InvalidMappingError and every reported memory usage is <= 1, and no returned "
-    "mapping beats the exact optimum. Non-trivial: exact run feasible and the tolerance run returned a different mapping "
-    "or a different objective value ('different' label); pairs where it returned the same mapping are counted as "
+    "mapping beats the exact optimum; (r alone, exact optimum using < 1-r of every memory) the optimum is still returned. Non-trivial: exact run feasible and the tolerance run returned a different mapping, "
+    "a different objective value or a different number of rows ('different' label); pairs where it returned the same mapping are counted as "
     "'same-mapping'. Distinct = distinct (spec, setting, metrics)."
 )
 ASSUMPTIONS = [
@@ -37,20 +37,21 @@ OBJ = {"ENERGY": "energy", "LATENCY": "latency", "ENERGY_DELAY_PRODUCT": "edp"}
 def cases(draw, slot):
     mode, metrics = slot["mode"], slot["metrics"]
     pick = draw(st.integers(0, 3))
-    if metrics in ("ENERGY|LATENCY", "ENERGY_DELAY_PRODUCT") and pick < 3:
+    if pick < 2:
+        # one Einsum with many divisors per rank: large tile-shape enumerations (cheap to map: ~0.5 s)
+        spec = draw(MM.small_specs(shapes=("matmul", "matmul", "matvec"), bound_pool=[4, 6, 8, 12, 12], max_ops=2000, tight=True,
+                                   three_level_single=False,
+                                   dear_main=("dear_main" if metrics in ("ENERGY|LATENCY", "ENERGY_DELAY_PRODUCT") else None)))
+    elif metrics in ("ENERGY|LATENCY", "ENERGY_DELAY_PRODUCT"):
         # energy and latency pull apart: many-point fronts, where rounding has something to drop
         spec = draw(MM.small_specs(shapes=("chain2", "chain2", "matmul", "matvec"), tight=True, dear_main="dear_main",
-                                   three_level_single=False))
-    elif pick < 2:
-        # one Einsum with many divisors per rank: large tile-shape enumerations
-        spec = draw(MM.small_specs(shapes=("matmul", "matvec"), bound_pool=[4, 6, 8, 12, 12], max_ops=2000, tight=True,
                                    three_level_single=False))
     else:
         spec = draw(MM.small_specs(shapes=("chain2", "elementwise2", "matmul"), tight=draw(st.sampled_from([True, "very"]))))
     t = slot["t"] if mode in ("objective", "both") else 0
     r = slot["r"] if mode in ("resource", "both") else 0
     return {"spec": spec, "metrics": metrics, "objective_tolerance": t, "resource_usage_tolerance": r,
-            "prune_threshold": draw(st.sampled_from([1000, 1000, 8, 1]))}
+            "prune_threshold": draw(st.sampled_from([1000, 8, 1]))}
 
 
 def check(desc, col):
@@ -116,6 +117,16 @@ def check(desc, col):
             if frac > 1 + 1e-6:
                 raise Violation(f"{knobs}: returned mapping {i} uses {frac * 100:.4g}% of {res}\n {b.canon(i)}",
                                 key=f"{mode}:over-capacity")
+    if t == 0 and all(max(a.usage[ia[o]].values(), default=0.0) <= 1 - r - 1e-6 for o in objs):
+        # documented guarantee of resource_usage_tolerance: every Pareto-optimal mapping whose usage stays below
+        # (1 - r) is still returned, so an exact optimum that far from full must survive
+        col.label(f"resource:optimum-below-{1 - r:g}")
+        for o in objs:
+            if y[o] > x[o] * (1 + 1e-5):
+                raise Violation(
+                    f"resource_usage_tolerance={r} metrics={metrics}: the exact optimum {o}={x[o]!r} uses at most "
+                    f"{max(a.usage[ia[o]].values(), default=0.0):.4g} of every memory (< 1 - r) but the tolerance run's best is {y[o]!r}\n"
+                    f" exact: {a.canon(ia[o])}\n tol  : {b.canon(ib[o])}", key="resource:lost-optimum-below-threshold")
     for o in objs:
         if y[o] < x[o] * (1 - 1e-5):
             raise Violation(
@@ -128,7 +139,7 @@ def check(desc, col):
                 key=f"objective:{metrics}:bound-exceeded")
 
 
-N = {"quick": 48, "thorough": 480}
+N = {"quick": 36, "thorough": 480}
 MODES = ["objective", "resource", "both"]
 
 
@@ -149,7 +160,16 @@ def replay(desc, col):
 REGISTER = True
 QUICK_BUDGET_S = 600
 THOROUGH_BUDGET_S = 3000
-MUTANTS = []
+MUTANTS = [
+    {"what": "pareto.logscale_to_tolerance: rounding grid (1+3t) instead of (1+t)", "caught": True, "how": "objective:ENERGY|LATENCY:bound-exceeded"},
+    {"what": "join_strategy_2: the final join prunes with 3x objective_tolerance", "caught": True, "how": "objective:ENERGY|LATENCY:bound-exceeded"},
+    {"what": "make_tile_shapes._make_evalable_objectives_from_formula: tolerance not reset to 0 for partially evaluated formulas (planned in DESIGN)", "caught": False,
+     "note": "changes results under the lowered prune threshold (best/optimum up to 1.35 at t=0.5 in 17 direct probes incl. 3-level specs) but never beyond (1+t): not property-breaking on specs of this size"},
+    {"what": "multi_strategy_join: oversubscription check after the dirty join relaxed (maxvalue > 2) (planned in DESIGN as 'limit_capacity keeps 1+tolerance on the final join')", "caught": False,
+     "note": "no effect in the domain: the dirty join never returned an oversubscribed row on these specs (results identical to the unmutated tree)"},
+    {"what": "pareto.makepareto: rounded reservation values written back into the table when resource_usage_tolerance > 0", "caught": False,
+     "note": "no effect in 11 direct probes on very tight fused specs (usage 0.8-0.9, r=0.5): rounding never moved a sum across 1.0. The validity half of C16 is weakly exercised at this scale; the resource-mode 'optimum below 1-r is retained' oracle was added after these runs"},
+]
 MANIFEST = {
     "level_text": "Metamorphic testing of map_workload_to_arch: each generated small spec is mapped exactly and with objective_tolerance and/or resource_usage_tolerance in {0.01, 0.1, 0.5}; with objective_tolerance alone the best returned objective must lie in [opt, (1+t) opt]; with resource_usage_tolerance every returned mapping must pass the detailed model's capacity check and none may beat the exact optimum. No counterexample in N pairs; not a proof.",
     "level_note": "1-2 Einsums, 2-3 memory levels, rank bounds <= 12 (one Einsum) / 6 (two); metrics ENERGY, LATENCY, EDP; validity via accelforge's detailed model (reported usage <= 1, no InvalidMappingError).",
